@@ -73,6 +73,7 @@ def jobs(tier, seed):
             add(solver, test, 3, 3, 1, "9/10", sample=800, cost=1e-3)
             add(solver, test, 3, 2, 1, "9/10", bs=2, dv=2, cost=3)
     add("savi", "max_diff", 3, 2, 1, "9/10", bs=1, cost=3)
+    add("pi", "max_diff", 2, 4, 1, "9/10", da=2, sample=64, mei=1)   # two-component action vectors
     add("savi", "max_diff", 2, 2, 1, "sym", bs=2, dv=2)
     if tier == "thorough":
         for bs in (1, 2, 3, 4):
@@ -190,6 +191,10 @@ def run_job(job):
     conv_paths = []
     for o in outs:
         if o.exc is not None:
+            from ..harness import exc_origin
+            if exc_origin(o.exc) == "harness":
+                ob.fail_harness(f"harness raised: {o.exc!r}")
+                continue
             ob.fail_harness(f"real code raised under symbolic execution: {o.exc!r}")
             continue
         r = o.value
